@@ -17160,16 +17160,19 @@ func (p *parser) handleIdentifier(loc logger.Loc, e *js_ast.EIdentifier, opts id
 		}
 	}
 
-	// Substitute an EImportIdentifier now if this has a namespace alias
-	if opts.assignTarget == js_ast.AssignTargetNone && !opts.isDeleteTarget {
-		symbol := &p.symbols[ref.InnerIndex]
+	// Substitute an EImportIdentifier now if this has a namespace alias. An
+	// assignment to an import is left alone (it was diagnosed above) but an
+	// assignment to a variable exported by a sibling TypeScript namespace block
+	// must become an assignment to the property: "b = 1" => "ns.b = 1".
+	if symbol := &p.symbols[ref.InnerIndex]; !opts.isDeleteTarget &&
+		(opts.assignTarget == js_ast.AssignTargetNone || symbol.Kind != ast.SymbolImport) {
 		if nsAlias := symbol.NamespaceAlias; nsAlias != nil {
 			data := p.dotOrMangledPropVisit(
 				js_ast.Expr{Loc: loc, Data: &js_ast.EIdentifier{Ref: nsAlias.NamespaceRef}},
 				symbol.OriginalName, loc)
 
 			// Handle references to namespaces or namespace members
-			if tsMemberData, ok := p.refToTSNamespaceMemberData[nsAlias.NamespaceRef]; ok {
+			if tsMemberData, ok := p.refToTSNamespaceMemberData[nsAlias.NamespaceRef]; ok && opts.assignTarget == js_ast.AssignTargetNone {
 				if ns, ok := tsMemberData.(*js_ast.TSNamespaceMemberNamespace); ok {
 					if member, ok := ns.ExportedMembers[nsAlias.Alias]; ok {
 						switch m := member.Data.(type) {
